@@ -5,7 +5,7 @@ from __future__ import annotations
 
 from .. import models as M
 from .. import rulespace as RS
-from ..drive import eval_rule, make_evaluable, to_filter
+from ..drive import eval_rule, make_evaluable, reuse_aware, to_filter, warmup
 from ..msgparse import parse_message
 from . import c01
 
@@ -104,8 +104,8 @@ def _subject_den(tree, rule) -> set:
     return out
 
 
-def check_pair(tree, imports, rule, ev) -> dict:
-    kind, msg = eval_rule(rule, ev)
+def check_pair(tree, imports, rule, ev, impl_rule=None) -> dict:
+    kind, msg = eval_rule(impl_rule or rule, ev)
     shape = RS.shape_name(rule)
     labels = [f"shape={shape}", f"impl={kind}"]
     if kind != "fail":
@@ -140,12 +140,16 @@ def check_pair(tree, imports, rule, ev) -> dict:
     return {"violations": viols, "nontrivial": n_lines >= 1, "labels": labels + buckets + [f"lines={min(n_lines, 4)}"]}
 
 
+@reuse_aware
 def check_case(spec: dict) -> dict:
     tree, imports = spec["tree"], [tuple(e) for e in spec["imports"]]
     ev = make_evaluable(tree, imports)
     if spec.get("query"):
         return check_queries(tree, imports, spec["subj"], spec["obj"], ev)
-    return check_pair(tree, imports, spec["rule"], ev)
+    res = check_pair(tree, imports, spec.get("model_rule", spec["rule"]), ev, spec["rule"])
+    if "model_rule" in spec:
+        res["labels"].append("regex-form-of-a-named-side")
+    return res
 
 
 # ----------------------------------------------------------------------------------- public query methods
@@ -212,11 +216,17 @@ def exh_shard(arg, st, deadline) -> None:
             return
         i += 1
         ev = make_evaluable(tree, imports)
-        for rule in rules:
-            res = check_pair(tree, imports, rule, ev)
-            if res["labels"][1] != "impl=fail":
-                res["labels"] = res["labels"][1:2]
-            st.record({"tree": tree, "imports": imports, "rule": rule}, res, enumerated=True, sample=(i % 97 == 5))
+        warm = RS.T4_DECOY if (i % 8 == 5 and tkey == "T4") else None
+        with warmup(warm):
+            for rule in rules:
+                res = check_pair(tree, imports, rule, ev)
+                if res["labels"][1] != "impl=fail":
+                    res["labels"] = res["labels"][1:2]
+                spec = {"tree": tree, "imports": imports, "rule": rule}
+                if warm:
+                    spec["warm"] = warm
+                    res["labels"].append("reused-rule-object")
+                st.record(spec, res, enumerated=True, sample=(i % 97 == 5))
         for subj, obj in so:
             res = check_queries(tree, imports, subj, obj, ev)
             res["labels"] = res["labels"][:1]
@@ -231,8 +241,9 @@ def strategy(tier):
     def both(draw):
         spec = draw(RS.rule_cases(root="q", max_modules=14))
         if spec["rule"].get("obj") and draw(hst.integers(0, 3)) == 0:
+            named = spec.get("model_rule", spec["rule"])  # the query methods take concrete module filters
             return {"tree": spec["tree"], "imports": spec["imports"], "query": True,
-                    "subj": spec["rule"]["subj"], "obj": spec["rule"]["obj"]}
+                    "subj": named["subj"], "obj": named["obj"]}
         return spec
 
     return both()
